@@ -79,3 +79,48 @@ def scenario_duplicate_run_started():
 
 if __name__ == "__main__":
     print(scenario_duplicate_run_started())
+
+
+def make_frontend():
+    import openpectus.aggregator.aggregator as agg
+    import openpectus.aggregator.models as Mdl
+
+    class Pub:
+        def __init__(self):
+            class _M:
+                class event_notifier:
+                    @staticmethod
+                    def register_subscribe_event(cb): pass
+            class _E:
+                methods = _M
+            self.pubsub_endpoint = _E
+
+        def register_on_disconnect(self, cb): pass
+
+        def __getattr__(self, name):
+            async def coro(*a, **k):
+                return None
+            return coro
+    emap = {}
+    ff = agg.FromFrontend(emap, None, Pub(), Pub())
+    return agg, Mdl, ff, emap
+
+
+def scenario_two_connections_then_both_close():
+    agg, Mdl, ff, emap = make_frontend()
+    from openpectus.aggregator.frontend_publisher import PubSubTopic
+
+    async def body():
+        emap["E"] = Mdl.EngineData("E", "pc", "v", "uod", "a", "e", "f", "loc")
+        topic = f"{PubSubTopic.DEAD_MAN_SWITCH}/u1"
+        await ff.user_subscribed_pubsub("c1", [topic])
+        await ff.user_subscribed_pubsub("c2", [topic])
+        await ff.register_active_user("E", "u1", "User One")
+        await ff.on_ws_disconnect("c1")
+        still = "u1" in emap["E"].active_users
+        await ff.on_ws_disconnect("c2")          # last live connection closes
+        return still, "u1" in emap["E"].active_users
+    still_after_first, listed_after_last = asyncio.run(body())
+    return {"violated": listed_after_last or not still_after_first, "listed_after_first_close": still_after_first,
+            "listed_after_last_close": listed_after_last, "connection_table": dict(ff.dead_man_switch_user_ids),
+            "scenario": "user u1 connects twice (c1, c2), registers on unit E, closes c1 then c2"}
